@@ -145,12 +145,20 @@ def run(ctx):
             for g in prog.all_functions():
                 if g.module is not m:
                     continue
+                # a local bound to a method / function (psi = self.psi) is called like the thing it names
+                fal = {}
+                for n in walk_no_nested(g.node):
+                    if isinstance(n, ast.Assign) and len(n.targets) == 1 and isinstance(n.targets[0], ast.Name) and isinstance(n.value, (ast.Attribute, ast.Name)):
+                        fal.setdefault(n.targets[0].id, []).append(n.value)
                 for n in walk_no_nested(g.node):
                     callee = None
                     if isinstance(n, ast.Call):
-                        if isinstance(n.func, ast.Name) and n.func.id == k:
+                        fn_ = n.func
+                        if isinstance(fn_, ast.Name) and fn_.id != k and len(fal.get(fn_.id, [])) == 1:
+                            fn_ = fal[fn_.id][0]
+                        if isinstance(fn_, ast.Name) and fn_.id == k:
                             callee = k
-                        elif isinstance(n.func, ast.Attribute) and n.func.attr == 'psi' and k.startswith('psi_'):
+                        elif isinstance(fn_, ast.Attribute) and fn_.attr == 'psi' and k.startswith('psi_'):
                             callee = k      # self.psi resolves to psi_UNIFAC / psi_modified_UNIFAC through the class property
                     if callee is None or len(n.args) <= pos:
                         continue
